@@ -83,6 +83,14 @@ class WorkerDied(Exception):
     pass
 
 
+class Inconclusive(Exception):
+    """The request could not be judged (resource cap): the case is discarded and counted, never a violation."""
+
+
+MEMORY_CAP = 8 << 30
+OOM_EXIT = 77
+
+
 class Worker:
     """One worker process. `call` sends one request and waits for its response.
 
@@ -101,8 +109,13 @@ class Worker:
         self.restarts = 0
 
     def _spawn(self):
+        def limit():
+            # a generated program that doubles a string or a list in a loop must not take the machine down: the worker
+            # runs into this cap, leaves with OOM_EXIT and the request counts as inconclusive
+            import resource
+            resource.setrlimit(resource.RLIMIT_AS, (MEMORY_CAP, MEMORY_CAP))
         self.proc = subprocess.Popen([self.path], stdin=subprocess.PIPE, stdout=subprocess.PIPE,
-                                     stderr=subprocess.DEVNULL, bufsize=0)
+                                     stderr=subprocess.DEVNULL, bufsize=0, preexec_fn=limit)
         self.count = 0
 
     def close(self):
@@ -169,6 +182,8 @@ class Worker:
                 rc = self.proc.wait()
             self.proc = None
             self.restarts += 1
+            if rc == OOM_EXIT:
+                raise Inconclusive("worker ran into its %d GiB address space cap" % (MEMORY_CAP >> 30))
             return {"outcome": "signal", "code": rc if rc is not None else -1, "stdout": "", "stderr": "",
                     "panic": "worker died with status %s" % rc}
 
